@@ -1,8 +1,16 @@
 package main
 
-// Callbacks handed to timers / goroutines run as separate steps at any later
-// moment, so the precondition of a callback under contract must hold from the
-// moment it is handed over (obligation callback_enabled at the call site).
+// Callbacks and closures handed to library code.
+//
+// * Callbacks handed to timers / goroutines run as separate steps at any later
+//   moment, so the precondition of a callback under contract must hold from
+//   the moment it is handed over (obligation callback_enabled at the call site).
+// * sync.Map.Range(f) runs the closure f for an arbitrary number of entries in
+//   arbitrary order: the closure's `invariant` clauses (over its captured
+//   variables) are obliged on entry, the locations the closure assigns are
+//   havocked, and the invariants are assumed afterwards. The closure itself is
+//   verified as a function under contract (invariants assumed on entry and
+//   obliged on return, with (key, value) an entry of the map).
 
 import (
 	"fmt"
@@ -12,16 +20,18 @@ import (
 	"golang.org/x/tools/go/ssa"
 )
 
-func (ex *Exec) callbackEnabled(s *State, instr ssa.Instruction, fval Val) {
+// closureEnv builds the spec environment of a function value known to the
+// executor: captured variables by name (current values), bound receiver for
+// method values. Returns nil if the value has no contract.
+func (ex *Exec) closureEnv(s *State, fval Val, where string) (*Env, *Contract, *ssa.Function) {
 	fv, ok := fval.(FuncV)
 	if !ok || fv.Fn == nil {
-		return
+		return nil, nil, nil
 	}
 	target := fv.Fn
 	vars := map[string]SV{}
-	env := &Env{ex: ex, s: s, vars: vars, pkg: ex.pkgOf(ex.fn), where: ex.key + "@callback"}
+	env := &Env{ex: ex, s: s, vars: vars, pkg: ex.pkgOf(ex.fn), where: where}
 	if strings.Contains(target.Synthetic, "bound") && len(fv.Bindings) == 1 {
-		// bound method value t.m: the callback is the method with receiver t
 		recvT := target.FreeVars[0].Type()
 		name := strings.TrimSuffix(target.Name(), "$bound")
 		ms := ex.g.prog.MethodSets.MethodSet(recvT)
@@ -33,7 +43,7 @@ func (ex *Exec) callbackEnabled(s *State, instr ssa.Instruction, fval Val) {
 			}
 		}
 		if target == fv.Fn || len(target.Params) == 0 {
-			return
+			return nil, nil, nil
 		}
 		vars[target.Params[0].Name()] = SV{V: fv.Bindings[0], T: target.Params[0].Type()}
 	} else {
@@ -45,6 +55,7 @@ func (ex *Exec) callbackEnabled(s *State, instr ssa.Instruction, fval Val) {
 				if pt, ok := f.Type().Underlying().(*types.Pointer); ok {
 					if _, isStruct := pt.Elem().Underlying().(*types.Struct); !isStruct || modelKind(pt.Elem()) != "" {
 						vars[f.Name()] = env.readLoc(pv)
+						vars["&"+f.Name()] = SV{V: pv, T: f.Type()}
 						continue
 					}
 				}
@@ -54,9 +65,17 @@ func (ex *Exec) callbackEnabled(s *State, instr ssa.Instruction, fval Val) {
 	}
 	con := ex.g.contracts[funcKey(target)]
 	if con == nil {
-		return
+		return nil, nil, target
 	}
 	env.pkg = ex.pkgOf(target)
+	return env, con, target
+}
+
+func (ex *Exec) callbackEnabled(s *State, instr ssa.Instruction, fval Val) {
+	env, con, _ := ex.closureEnv(s, fval, ex.key+"@callback")
+	if con == nil {
+		return
+	}
 	ci, _ := instr.(ssa.CallInstruction)
 	site := "callback"
 	if ci != nil {
@@ -67,4 +86,71 @@ func (ex *Exec) callbackEnabled(s *State, instr ssa.Instruction, fval Val) {
 		ex.oblige(s, fmt.Sprintf("%s#callback_enabled.%s.%s", ex.key, site, r.Label), "pre", instr.Pos(), r.Tags, goal,
 			"precondition of callback "+con.Key+" must hold from the moment it is scheduled: "+r.Src)
 	}
+}
+
+// ---- sync.Map model ------------------------------------------------------------
+
+func (ex *Exec) syncMapArrs(s *State, recv Val) (dn, vn string, dom, val, base Term) {
+	p, ok := recv.(PtrV)
+	if !ok {
+		ex.fail("sync.Map receiver is not a pointer")
+	}
+	n := leafHeapName(p.Root, p.Path)
+	dn = strings.TrimSuffix(n, "|") + "#dom|"
+	vn = strings.TrimSuffix(n, "|") + "#val|"
+	dom = s.heapCur(dn, SArray(SRef, SArray(SIface, SBool)))
+	val = s.heapCur(vn, SArray(SRef, SArray(SIface, SIface)))
+	return dn, vn, dom, val, p.Base
+}
+
+func (ex *Exec) syncMapRange(s *State, instr ssa.Instruction, args []Val) callOut {
+	env, con, target := ex.closureEnv(s, args[1], ex.key+"@Range")
+	if con == nil {
+		name := "?"
+		if target != nil {
+			name = funcKey(target)
+		}
+		ex.fail("sync.Map.Range: closure %s has no contract (needs invariant/assigns clauses)", name)
+	}
+	ci, _ := instr.(ssa.CallInstruction)
+	site := ex.siteName(instr, calleeName(ci.Common()))
+	_, _, dom, val, base := ex.syncMapArrs(s, args[0])
+	rng := &rangeCtx{dom: Select(dom, base), val: Select(val, base)}
+	env.rng = rng
+	// the closure's preconditions must hold for every entry of the map
+	if len(con.Requires) > 0 && len(target.Params) == 2 {
+		k0 := s.declare(ex.g.fresh("rk"), SIface)
+		v0 := s.declare(ex.g.fresh("rv"), SIface)
+		ex.assumeWF(s, k0, nil)
+		ex.assumeWF(s, v0, nil)
+		envR, _, _ := ex.closureEnv(s, args[1], ex.key+"@Range")
+		envR.rng = rng
+		envR.vars[target.Params[0].Name()] = SV{V: Scalar{k0}, T: target.Params[0].Type()}
+		envR.vars[target.Params[1].Name()] = SV{V: Scalar{v0}, T: target.Params[1].Type()}
+		isEntry := And(Select(rng.dom, k0), Eq(Select(rng.val, k0), v0))
+		for _, r := range con.Requires {
+			ex.oblige(s, fmt.Sprintf("%s#range.pre.%s.%s", ex.key, site, r.Label), "pre", instr.Pos(), r.Tags,
+				Implies(isEntry, ex.evalBool(envR, r.Expr)), "precondition of Range closure "+con.Key+" for every entry: "+r.Src)
+		}
+	}
+	for _, inv := range con.Invariants {
+		ex.oblige(s, fmt.Sprintf("%s#range.init.%s.%s", ex.key, site, inv.Label), "inv", instr.Pos(), inv.Tags, ex.evalBool(env, inv.Expr),
+			"invariant of Range closure "+con.Key+" on entry: "+inv.Src)
+	}
+	// havoc what the closure assigns (captured cells are written as *name -> deref(&name))
+	for _, a := range con.Assigns {
+		loc := env.evalLoc(a.Expr)
+		for _, t := range env.locTargets(loc) {
+			arr := s.heapCur(t.Name, SArray(SRef, t.Sort))
+			nv := s.declare(ex.g.fresh("rv"), t.Sort)
+			s.heapSet(t.Name, Store(arr, t.Base, nv))
+		}
+	}
+	env2, _, _ := ex.closureEnv(s, args[1], ex.key+"@Range")
+	env2.rng = rng
+	for _, inv := range con.Invariants {
+		s.assume(ex.evalBool(env2, inv.Expr))
+	}
+	ex.usedAssume["A-RANGE: sync.Map.Range calls the closure only with entries of the map, any number of times in any order"] = true
+	return callOut{}
 }
